@@ -89,7 +89,7 @@ def gen_script(rng, prog):
         groups = [[m] for m in range(n)]
     else:
         groups = [list(range(n))]
-    ops, ref = [], []
+    ops, ref = ['opt %d' % rng.choice([0, 1, 1, 2])], []
     loaded = []
     iface_of = {}
     called = False
@@ -156,9 +156,23 @@ def run_g(impl, path, ops):
     return ' '.join(' '.join(out).split())
 
 
+def max_level(ops):
+    lv = [int(o.split()[1]) for o in ops if o.startswith('opt ')]
+    return max(lv) if lv else 2   # MIR_gen_init default
+
+
 def check_e2e(impl, path, ops, ref):
-    """None if the run keeps every function intact and behaves like the reference, else a description"""
+    """None if the run keeps every function intact and behaves like the reference, else a description.
+    When some function was generated at -O2/-O3, what the *machine code* does is C01's business (the optimiser
+    still miscompiles a share of these programs): then only the MIR-level observations decide -- text, instruction
+    identity, vars, original_insns, lref fields, addresses, machine_code stability, MIR_gen's return value."""
     o = run_g(impl, path, ops)
+    if max_level(ops) >= 2 and 'CRASH:run' in o:
+        return 'SKIP:optimised-code-crashed'
+    if 'CRASH:gen:' in o:
+        # the code generator itself died while generating (C01's / C03's subject, reported there by death site):
+        # no generated function to look at
+        return 'SKIP:' + o[o.index('CRASH:gen:'):].split()[0]
     for b in SNAP_BAD:
         if b in o:
             i = o.index(b)
@@ -168,13 +182,15 @@ def check_e2e(impl, path, ops, ref):
         return None  # the reference itself is not clean: nothing to compare against (counted separately)
     res, last, tail = parse_g(o)
     rres, rlast, rtail = parse_g(r)
+    if last != rlast:
+        diff = [k for k in last if last[k] != rlast.get(k)]
+        return 'text of functions differs from the never-generated reference: %s' % diff[:5]
+    if max_level(ops) >= 2:
+        return None
     if res != rres:
         return 'results differ from the interpreter-only reference: %s vs %s' % (res, rres)
     if tail != rtail:
         return 'external-call log / memory differ from the reference: %s vs %s' % (tail, rtail)
-    if last != rlast:
-        diff = [k for k in last if last[k] != rlast.get(k)]
-        return 'text of functions differs from the never-generated reference: %s' % diff[:5]
     return None
 
 
@@ -194,7 +210,8 @@ def shrink_ops(impl, path, ops, ref):
             elif k in ('load', 'call', 'icall'):
                 rr.append(o)
         rr.append('snap')
-        return check_e2e(impl, path, full + ['snap'], rr) is not None
+        w = check_e2e(impl, path, full + ['snap'], rr)
+        return w is not None and not w.startswith('SKIP:')
     idx = [i for i, o in enumerate(ops) if o.split()[0] not in keep_kinds]
     keep = vlib.shrink_list(idx, lambda s: fails(set(s)), max_steps=80)
     ks = set(keep)
@@ -216,7 +233,7 @@ def run(chk):
         'working list func->insns, registers it creates, and the current label fields of lrefs']
     found = 0
     rng = chk.rng('c16')
-    nprog = 12 if quick else 400
+    nprog = 40 if quick else 600
     nproto = 10 if quick else 40
     ne2e = 3 if quick else 8
     for k in range(nprog):
@@ -257,6 +274,9 @@ def run(chk):
             if k == 0:
                 chk.sample('G | ' + ' ; '.join(ops)[:300])
             why = check_e2e(impl, path, ops, ref)
+            if why and why.startswith('SKIP:'):
+                chk.dist('skipped', why.split(':')[-1])
+                why = None
             if why:
                 found += 1
                 ops2, ref2 = shrink_ops(impl, path, ops, ref)
